@@ -84,7 +84,7 @@ class PbnParser(Parser):
             # neither ';' nor '{' appear
             self.tag_pair_buffer.append(string)
 
-    TAG_PATTERN = r'\[[ ]?([A-Z][a-zA-Z]+) "([^"]*)"[ ]?\]'
+    TAG_PATTERN = r'\[[ \t\r\n]*([A-Z][a-zA-Z]+)[ \t\r\n]+"([^"]*)"[ \t\r\n]*\]'
     REPLACE_PATTERN = r'[ \t\r\n]+'
 
     # TODO: This method only parses tag pairs.
@@ -95,7 +95,6 @@ class PbnParser(Parser):
         :return: Dict converted from tag pairs.
         """
         string = ''.join(self.tag_pair_buffer)
-        string = re.sub(self.REPLACE_PATTERN, ' ', string)
         tag_pairs = re.findall(self.TAG_PATTERN, string, )
 
         game_mem = dict()
